@@ -112,6 +112,7 @@ class Run:
         self.first_sight: set = set()
         self.interest_seen: Dict[str, Tuple[Any, D, Any]] = {}
         self.anomalies: List[str] = []
+        self.offgrid_loans = False     # a loan amount off the precision grid was requested (C08's premise is void)
         self.symbols: Dict[str, int] = sc["symbols"]
         self.barmap: Dict[Tuple[str, datetime.datetime], Tuple[D, D, D, D, D]] = {}
         self.bars_by_pair: Dict[str, List[Tuple[datetime.datetime, D, D, D, D, D]]] = {}
@@ -252,6 +253,9 @@ class Run:
                 amt = D(act["amount"])
                 if act.get("boundary"):
                     amt = await self._boundary_loan(act["symbol"], amt)
+                if amt != q(amt, self.symbols[act["symbol"]], decimal.ROUND_DOWN):
+                    self.offgrid_loans = True
+                    self.stats["offgrid_loan_requests"] += 1
                 await self.call("create_loan", lambda: e.create_loan(act["symbol"], amt),
                                 {"symbol": act["symbol"], "amount": amt})
             elif op == "repay":
@@ -784,7 +788,7 @@ class Run:
                 self.v("C02", "borrowed_ne_open_principal",
                        f"{s}: borrowed {b} but open loans sum to {open_principal.get(s, ZERO)} at {where}")
             p = self.symbols.get(s)
-            if p is not None:
+            if p is not None and not self.offgrid_loans:
                 for nm, val in (("available", a), ("hold", h), ("borrowed", b)):
                     if val != q(val, p, decimal.ROUND_DOWN):
                         self.v("C08", "balance_off_grid", f"{s} {nm} {val} is not a multiple of 1e-{p} at {where}")
